@@ -191,6 +191,11 @@ class GlueMixin:
             if n.func.id in GLUE_SPEC:
                 args = [self.eval(a, st) for a in n.args]
                 return getattr(self, "g_" + n.func.id)(args, st)
+            if n.func.id == "range" and not self.spec:
+                vs = [self.eval(a, st) for a in n.args]
+                if any(isinstance(v, Op) for v in vs):
+                    return Op("range(%s)" % ", ".join(render(v) for v in vs))      # an opaque number of rounds
+                return super().e_Call(ast.Call(func=n.func, args=[_GLit(v) for v in vs], keywords=[]), st)
             if n.func.id in ("list", "tuple") and len(n.args) == 1 and not self.spec:
                 v = self.eval(n.args[0], st)
                 if isinstance(v, Op):
@@ -266,17 +271,22 @@ class GlueMixin:
         """glue mode, loop over an OPAQUE iterable: the body is executed once for a generic element `<each x of it>` between
         ("loop", it) / ("endloop", it) markers -- the events in between stand for EVERY iteration (trace predicates that count
         calls count them per iteration); the locals the body assigns are opaque after the loop.  No value state exists in glue
-        mode (fields render as their names), so there is nothing else to havoc.  break / continue / for-else are outside."""
+        mode (fields render as their names), so there is nothing else to havoc.  `break` / `continue` end the generic iteration
+        (an ("exit", kind) marker is left in the trace); for-else is outside."""
         if self.glue():
             it = self.eval(s.iter, st)
-            if isinstance(it, Op) and isinstance(s.target, ast.Name) and not s.orelse \
-                    and not any(isinstance(x, (ast.Break, ast.Continue)) for x in ast.walk(s)):
+            if isinstance(it, Op) and isinstance(s.target, ast.Name) and not s.orelse:
                 self.add_event(st, ("loop", it.text))
                 st.vars[s.target.id] = Op("<each %s of %s>" % (s.target.id, it.text))
                 assigned = {t.id for x in ast.walk(s) if isinstance(x, ast.Assign) for t in x.targets if isinstance(t, ast.Name)}
                 out = []
                 for (s2, oc, pl) in self.exec_block(s.body, st):
-                    if oc == "normal":
+                    if oc in ("normal", "break", "continue"):
+                        # break: no further iteration; continue: on to the next one -- either way the loop is left normally
+                        # as far as a per-iteration trace is concerned
+                        if oc != "normal":
+                            self.add_event(s2, ("exit", oc, it.text))
+                        oc = "normal"
                         for nm in assigned:
                             s2.vars[nm] = Op("<%s after the loop over %s>" % (nm, it.text))
                         self.add_event(s2, ("endloop", it.text))
@@ -314,6 +324,21 @@ class GlueMixin:
                     seen = True
                     ok = ok and depth > 0
         return seen and ok
+
+    def g_break_guard(self, args, st):
+        """the innermost branch condition under which the path leaves a generic iteration by `break` ('' when it breaks under
+        no condition, None when the path has no break)"""
+        stack, closed = [], None
+        for e in st.ghost.get("trace", []):
+            if e[0] == "exit" and e[1] == "break":
+                # the branch that executed the break is closed by its endassume marker right before the exit marker
+                return closed if closed is not None else (stack[-1] if stack else "")
+            closed = None
+            if e[0] == "assume":
+                stack.append(e[1] if e[2] else "not (%s)" % e[1])
+            elif e[0] == "endassume" and stack:
+                closed = stack.pop()
+        return None
 
     def g_result_text(self, args, st):
         """canonical text of the returned opaque term"""
@@ -454,4 +479,4 @@ class GlueMixin:
         return SList([(e[2] if e[0] == "call" else "%s = %s" % (e[1], e[2])) for e in self._events(st)])
 
 
-GLUE_SPEC = {"call_arg_mentions", "swap_closed", "no_right_effect", "right_enabled", "ncalls", "call_mentions", "called_before", "sets", "event_texts", "last_store", "branch", "stored_at", "result_text", "event_before", "in_loop"}
+GLUE_SPEC = {"call_arg_mentions", "swap_closed", "no_right_effect", "right_enabled", "ncalls", "call_mentions", "called_before", "sets", "event_texts", "last_store", "branch", "stored_at", "result_text", "event_before", "in_loop", "break_guard"}
